@@ -183,6 +183,43 @@ CHECKS = {
         design_ref="DESIGN.md 5 C23",
         note=NOTE_COMMON + " The numeric kernels are evaluated by abTEM in single precision; tolerance 2e-5. 'Half a pixel' is half of the larger angular pixel size.",
     ),
+    "C07": dict(
+        text=("TLC explores MultisliceImpl (transcription of multislice_and_detect's configuration loop, entrance-plane "
+              "detection, slice loop, detection after listed slices, and of _validate_exit_planes; waves are symbolic terms) for "
+              "every slice count <= 4 (thorough 6) and every exit_planes argument (None, each int, every increasing tuple ending "
+              "at the last slice) and checks each recorded measurement is the wave through exactly the slices up to its plane, "
+              "every (configuration, plane) once, last plane = full run.  Every case runs on real potentials (equal/unequal "
+              "slicing, PlaneWave/Probe, Waves/pixelated) with the guarded hooks on; MultisliceTrace.tla validates that the "
+              "MsBegin/MsConfig/MsSlice/MsDetect/MsEnd events are a run of the Multislice machine (detections exactly after the "
+              "listed slices, cumulative depth) and decides plane = independent truncated run (logged deviation) and "
+              "thickness axis = cumulative thicknesses."),
+        technique="TLA+ loop model with symbolic wave terms (TLC) + hook-event trace validation against the run machine (TLC) + numeric comparison with truncated runs",
+        design_ref="DESIGN.md 5 C07",
+        note=NOTE_COMMON + " Numeric closeness computed by numpy (tolerance 5e-5 of the reference maximum, single precision pipeline).",
+    ),
+    "C02": dict(
+        text=("TLC explores MultisliceImpl with 1..3 (thorough 4) configurations and checks that every recorded measurement of "
+              "configuration k is the wave through configuration k's slices starting from the INCIDENT wave (the transcription "
+              "with the wave carried over violates RecordsCorrect in TLC).  The cases are realised with FrozenPhonons and "
+              "AtomsEnsemble potentials x PlaneWave/Probe+scan x Waves/annular/pixelated x ensemble_mean, eager with hook events "
+              "and lazy with several max_batch; MultisliceTrace.tla validates the event sequence and decides member k = "
+              "independent run through the potential built from displaced configuration k, mean member = mean of members, and "
+              "that displaced positions are identical across chunkings, modes and iteration orders."),
+        technique="TLA+ loop model with symbolic wave terms (TLC) + hook-event trace validation (TLC) + numeric comparison with independent per-configuration runs",
+        design_ref="DESIGN.md 5 C02",
+        note=NOTE_COMMON + " The MsConfig fingerprints are diagnostic only; the verdict is the numeric member comparison (tolerance 5e-5).",
+    ),
+    "C04": dict(
+        text=("TLC enumerates PropagationModel (potential: vacuum / atoms / random non-negative / random with negative values x "
+              "wave: plane / probe / random band-limited / random not band-limited x tilt x propagator order 1, 2 x slicing) "
+              "with the clauses each scenario exercises; every scenario runs through the real Fourier-space multislice with the "
+              "hooks on (single precision, every 4th also double) and MultisliceTrace.tla checks, inside the run machine, that "
+              "the total intensity logged after every slice never increases, that vacuum propagation of band-limited waves "
+              "conserves it, and that P(-dz) P(dz) is the identity on band-limited waves."),
+        technique="TLA+ scenario model + run machine with an intensity-monotonicity action property (TLC trace validation over hook events)",
+        design_ref="DESIGN.md 5 C04",
+        note=NOTE_COMMON + " Intensities are logged in fixed point (1e-3 of a unit) with a 2e-5 relative slack.",
+    ),
 }
 
 NOT_APPLICABLE = {
